@@ -26,7 +26,7 @@ REPO = os.environ.get("VERIF_REPO", "/repo")
 CACHE = os.path.join(VERIF, ".cache")
 COQ = os.path.join(VERIF, "coq")
 GUARD = "wilfred_garden_verif"
-TARGET = os.path.join(CACHE, "target")
+TARGET = os.environ.get("VERIF_TARGET", os.path.join(CACHE, "target"))
 NCPU = os.cpu_count() or 4
 
 ALLOWED_AXIOMS = {
